@@ -1,6 +1,6 @@
 """Configuration of ./check C13 (see cfg/README)."""
 
-PROP = {'modules': ['SfntV.Props.C13'],
+PROP = {'drive': ['Cff'], 'modules': ['SfntV.Props.C13'],
  'required_theorems': ['C13_index_roundtrip',
                        'C13_index_encode_ok_iff',
                        'C13_index_offsize',
@@ -13,19 +13,21 @@ PROP = {'modules': ['SfntV.Props.C13'],
                        'C13_dict_roundtrip',
                        'C13_charset_roundtrip',
                        'C13_fdselect_roundtrip',
+                       'C13_encoding_roundtrip',
                        'C13_strings_roundtrip',
                        'C13_layout_consistent',
                        'C13_widths_integral',
                        'C13_width_stored_exactly',
                        'C13_facts'],
- 'areas': [('cff', 600, 12000)],
+ 'areas': [('cff', 2000, 15000)],
  'rule': 'distinct case lines (section encoder inputs / section bytes / font descriptions); non-trivial = at least one '
          'object, glyph or operand beyond the empty structure',
  'partial': ['C13_dictreal_roundtrip is proved from the nine-digit integer and decimal-point position onwards (|l| <= 280); '
              'the float64 step of encodeFloat (Log10/Pow10/Round producing the nine digits, i.e. "to nine significant digits") '
              'is not modelled; it is compared by correspondence on decimals of 1-9 digits.',
-             'C13_encoding_roundtrip_full (def): encodeEncoding/readEncoding are modelled (formats 0/1, supplements) and '
-             'tied byte-exactly, the spec reader is applied to written fonts, but the round-trip theorem is not proved.',
+             'C13_encoding_roundtrip carries the hypothesis "encodeEncoding returned bytes": inside the contiguity domain the '
+             'encoder refuses (error "too many segments") when the primary codes form more than 255 ranges (256 encoded glyphs '
+             'with scattered codes); the real code returns that error there, it does not write a wrong table.',
              'C13_layout_consistent is proved for the model writeFont of (*Font).Write (byte-identical to the real Write on '
              'every generated font, stream cff.file.model) restricted to ItalicAngle = 0, default font matrices, default '
              'BlueScale, StdHW = StdVW = 0 (the float-valued DICT entries are then absent) and to fonts whose widths are not all '
@@ -57,14 +59,16 @@ PROP = {'modules': ['SfntV.Props.C13'],
 LEVEL = {'text': 'Proof (partial): INDEX write/read round trip for every list of byte strings with minimal sufficient '
          'offSize; DICT integers of all five size classes over the whole int32 range; nibble-coded reals up to the exact '
          'decimal; charset formats 0/1/2 and FDSelect formats 0/3 (with the binary search of the returned function) for '
-         'all inputs in the documented domain; SID<->string; integrality of the stored default/nominal widths (after the '
-         'repair of the int32 truncation). Each model is tied to the Go function byte-exactly through hooks, readers also '
+         'all inputs in the documented domain; encodings formats 0/1 with supplements (multiply-encoded glyphs) under the '
+         'contiguity rule; whole DICTs; SID<->string; the exit state of the offset fixed-point loop of Write (every stored '
+         'offset is the position of its target); integrality of the stored default/nominal widths (after the repair of the '
+         'int32 truncation). Each model is tied to the Go function byte-exactly through hooks, readers also '
          'on mutated bytes; independent TN5176 readers written in Lean are evaluated on whole fonts written by the real '
          '(*cff.Font).Write (simple and CID-keyed, 1-256 private dicts, custom encodings with multiply-encoded glyphs, '
          'fractional widths), and the real Write->Read is compared field by field.',
  'note': 'Trusted: Lean kernel + 3 standard axioms; hand-written models mirror cff/index.go, dict.go, charset.go, '
          'fdselect.go, encoding.go, strings.go, write.go:selectWidths as checked by sampled byte-exact correspondence; '
-         'the spec readers are my reading of TN5176/5177. Encoding round trip, real-number clamping range and the offset '
-         'fixed-point loop are evaluated, not proved.',
+         'the spec readers are my reading of TN5176/5177. The composition of the section theorems through cff.Read '
+         '(C13_font_roundtrip) is evaluated (streams cff.file.rt, cff.file.spec), not proved.',
  'technique': 'Lean 4 proofs about section encoder/decoder models + byte-exact differential correspondence + '
               'Lean spec CFF reader applied to real output'}
